@@ -13,8 +13,9 @@ import time
 import traceback
 
 VERIF = os.path.dirname(os.path.dirname(os.path.abspath(__file__)))
-EVIDENCE_DIR = os.path.join(VERIF, "evidence")
-REPLAY_DIR = os.path.join(VERIF, "replays")
+# (overridable so that runs against deliberately broken trees do not overwrite the real evidence)
+EVIDENCE_DIR = os.environ.get("DRFVERIF_EVIDENCE_DIR", os.path.join(VERIF, "evidence"))
+REPLAY_DIR = os.environ.get("DRFVERIF_REPLAY_DIR", os.path.join(VERIF, "replays"))
 FINDINGS_FILE = os.path.join(VERIF, "known_findings.json")
 SHM = "/dev/shm"
 NPROC = int(os.environ.get("DRFVERIF_NPROC", "16"))
